@@ -1343,11 +1343,11 @@ func runC14(r *Run) {
 		"any o.m as _, v { v.x == 1 }", "all m as k, _ { k matches `^[a-d]$` }",
 		"any m as k { k == b or zz == 1 }", "all m as k, _ { k != b and zz == 1 }", "any m as k { k == c or m.a.x == 1 }", "all m as k { k != a or zz is empty }"}
 	elems := []interface{}{map[string]interface{}{"x": 1}, map[string]interface{}{"x": 2}, 5, "s", nil, map[string]interface{}{}, map[string]interface{}{"x": "1"}, []interface{}{1}, map[string]interface{}{"x": 1, "y": 2}}
-	keys := []string{"a", "b", "c", "d", "e", "f", "g", "h"}
-	oddKeys := []string{"k\xfe", "k\xff", "\xff", "\ufffd", "k\xc0", "a", "", "é", "e\u0301", "z"}
+	keys := []string{"a", "b", "c", "d", "e", "f", "g", "h", "i", "j", "k", "l", "m", "n", "o", "p", "q"}
+	oddKeys := []string{"k\xfe", "k\xff", "\xff", "\ufffd", "k\xc0", "a", "", "é", "e\u0301", "z", "not", "0", "true", "-0", "NaN", "in", "k\x00", "K"}
 	for i := 0; i < n; i++ {
 		rng = NewRng(mix(r.Seed, strHash("C14"), uint64(i)))
-		sz := 2 + rng.Intn(7)
+		sz := 2 + rng.Intn(16)
 		mkdoc := func() interface{} {
 			rr := NewRng(mix(r.Seed, strHash("C14doc"), uint64(i)))
 			m := map[string]interface{}{}
